@@ -195,15 +195,20 @@ def resolvedDoc (E : Env Text κ) (P : Project Text κ) (v : OpView Text κ) : D
   | .ok out => defsOf v.doc ++ out.filterMap (fetch (opDocs E P))
   | _ => defsOf v.doc
 
+/-- the document an import error speaks about: the root document itself (the resolver never looks its own path up:
+    `expanded` is seeded with it), or what the resolver map holds -/
+def docAt (docs : List (κ × Doc)) (root : κ) (rootDoc : Doc) (q : κ) : Option Doc :=
+  if q = root then some rootDoc else docs.lookup q
+
 /-- main position of an import error: the path literal of the line (`FileNotFound`), the target identifier
     (`FragmentNotFound`) — of the file in which the chain broke -/
-def impErrPos (E : Env Text κ) (docs : List (κ × Doc)) : Imports.ImpErr κ String → Gql.Pos
+def impErrPos (E : Env Text κ) (docs : List (κ × Doc)) (root : κ) (rootDoc : Doc) : Imports.ImpErr κ String → Gql.Pos
   | .fileNotFound doc _ line =>
-    match docs.lookup doc with
+    match docAt docs root rootDoc doc with
     | some D => (match (importsOf D)[line]? with | some i => E.pathPos i | none => {})
     | none => {}
   | .fragmentNotFound doc _ id =>
-    match docs.lookup doc with
+    match docAt docs root rootDoc doc with
     | some D =>
       (match (importsOf D)[id.line]? with
        | some i => (match i.targets[id.col]? with | some (some (_, p)) => p | _ => {})
@@ -217,8 +222,8 @@ def impErrExtra : Imports.ImpErr κ String → List Cli.Pos
 
 def opExtDiag (E : Env Text κ) (D : Doc) (e : Imports.ExtErr) : Diag := ⟨toCli (extErrPos D e), [], E.tags.opExt e⟩
 
-def opImportDiag (E : Env Text κ) (P : Project Text κ) (e : Imports.ImpErr κ String) : Diag :=
-  ⟨toCli (impErrPos E (opDocs E P) e), impErrExtra e, E.tags.opImport e⟩
+def opImportDiag (E : Env Text κ) (P : Project Text κ) (v : OpView Text κ) (e : Imports.ImpErr κ String) : Diag :=
+  ⟨toCli (impErrPos E (opDocs E P) v.input.path v.doc e), impErrExtra e, E.tags.opImport e⟩
 
 def opCheckDiag (E : Env Text κ) (d : CheckCommon.Diag) : Diag := ⟨toCli d.2, [], E.tags.opCheck d.1⟩
 
@@ -226,7 +231,7 @@ def opCheckDiag (E : Env Text κ) (d : CheckCommon.Diag) : Diag := ⟨toCli d.2,
 def opFileOf (E : Env Text κ) (P : Project Text κ) (v : OpView Text κ) : OpFile :=
   { parse := toParseRes v.parse
     ext := match extOf E.code v.doc with | .error e => some (opExtDiag E v.doc e) | .ok _ => none
-    imp := match impOf E P v with | .err e => some (opImportDiag E P e) | _ => none
+    imp := match impOf E P v with | .err e => some (opImportDiag E P v e) | _ => none
     check := (CheckOp.checkOp ⟨resolvedSchema E P⟩ (resolvedDoc E P v)).map (opCheckDiag E)
     io := v.input.io }
 
